@@ -127,6 +127,7 @@ void ABTI_mem_pool_return_bucket(ABTI_mem_pool_global_pool *p_global_pool,
 ABTU_ret_err static inline int
 ABTI_mem_pool_alloc(ABTI_mem_pool_local_pool *p_local_pool, void **p_mem)
 {
+    ABTV_EVENT(ABTV_EV_MEM_LOCAL_POOL_ACCESS, p_local_pool, NULL);
     size_t bucket_index = p_local_pool->bucket_index;
     ABTI_mem_pool_header *cur_bucket = p_local_pool->buckets[bucket_index];
     size_t num_headers_in_cur_bucket = cur_bucket->bucket_info.num_headers;
@@ -174,6 +175,7 @@ ABTI_mem_pool_alloc(ABTI_mem_pool_local_pool *p_local_pool, void **p_mem)
 static inline void ABTI_mem_pool_free(ABTI_mem_pool_local_pool *p_local_pool,
                                       void *mem)
 {
+    ABTV_EVENT(ABTV_EV_MEM_LOCAL_POOL_ACCESS, p_local_pool, NULL);
     /* At least one header is available in the current bucket. */
     size_t bucket_index = p_local_pool->bucket_index;
     ABTI_mem_pool_header *p_freed_header = (ABTI_mem_pool_header *)mem;
